@@ -586,7 +586,7 @@ def elf_info(path):
     return text, dyn, syms
 
 
-def run_e2e(ctx, hexe, uft, failures, cov):
+def run_e2e(ctx, hexe, uft, failures, cov, model_ok=True):
     nprog = 2 if ctx.tier == "quick" else 8
     ncfg = 2 if ctx.tier == "quick" else 6
     builds = E2E_BUILDS[:3] if ctx.tier == "quick" else E2E_BUILDS
@@ -662,7 +662,7 @@ def run_e2e(ctx, hexe, uft, failures, cov):
                 mline = [l[6:] for l in hl if l.startswith("MODEL ")][0]
                 mt = mline.split()
                 bits = mt[7 + len(allnames):]
-                mverd = C.run_model("C14", [mline])[0].split("|")[1].strip()
+                mverd = C.run_model("C14", [mline])[0].split("|")[1].strip() if model_ok else None
                 base = funcs["main"][0] - syms["main"][0] if dyn else 0
                 tstart = base + text[0]
                 tend = tstart + text[1]
@@ -683,7 +683,7 @@ def run_e2e(ctx, hexe, uft, failures, cov):
                     ncalls = funcs[f][1]
                     got = traced.get(f, 0)
                     sigs.add((bname, want, size >= max(z, 6), expect))
-                    if mverd[i] != want and not bad:
+                    if mverd is not None and mverd[i] != want and not bad:
                         bad = ("model verdict for %s is %s, reference %s" % (f, mverd[i], want), False)
                     if expect and got != ncalls and not bad:
                         bad = ("function %s selected by the last matching option (size %d, -Z %d) was called %d times "
@@ -699,7 +699,7 @@ def run_e2e(ctx, hexe, uft, failures, cov):
                     v = {"+": "+", "-": "-", "0": "0"}[want]
                     pf_lines.append((f, v, "pf %s %d %d %#x 0 %#x %s" % (ty, z, size, funcs[f][0], tramp, ondisk.hex())))
                 # byte-exact comparison with the model's patcher
-                mouts = C.run_model("C14", [l for _, _, l in pf_lines])
+                mouts = C.run_model("C14", [l for _, _, l in pf_lines]) if model_ok else []
                 for (f, v, l), mo in zip(pf_lines, mouts):
                     mcode = bytes.fromhex(mo.split()[1]) if v == "+" else bytes.fromhex(l.split()[-1])
                     if mcode != funcs[f][2] and not bad:
@@ -759,11 +759,12 @@ def run(ctx):
         C.violation(ctx, "translator", {"kind": "table-translator-failed", "log": tr.stdout[-2000:]}, True)
         return C.finish(ctx)
     ok, problems = C.prove(ctx, "C14")
+    model_ok = ok
     if not ok:
+        # keep going without the model: the monitors may still find a concrete failing input
         C.violation(ctx, "proof", {"kind": "proof-obligation-broken", "problems": problems,
                                    "hint": "Uft/Gen/PatchTables.lean is regenerated from the checked tree; a changed "
                                            "byte table breaks the table lemmas"}, True)
-        return C.finish(ctx)
 
     hexe, okc, log = build_harness(ctx)
     if not okc:
@@ -796,7 +797,7 @@ def run(ctx):
                                      "cases": len(cases), "got": [len(models), len(impls)],
                                      "next_case": cases[k][0][:2000] if k < len(cases) else None}, True)
         return C.finish(ctx)
-    mout = C.run_model("C14", models)
+    mout = C.run_model("C14", models) if model_ok else list(impls)
 
     failures = []   # (name, replay obj, what, is_monitor)
     disagree = monitor_fail = 0
@@ -842,7 +843,7 @@ def run(ctx):
         C.violation(ctx, "make", {"kind": "uftrace-build-failed", "log": mlog[-3000:]}, True)
     else:
         e2e_fail = []
-        e2e_runs = run_e2e(ctx, hexe, uft, e2e_fail, cov)
+        e2e_runs = run_e2e(ctx, hexe, uft, e2e_fail, cov, model_ok)
         for name, rep, what, is_mon in e2e_fail:
             rep = dict(rep)
             rep["what"] = what
